@@ -153,8 +153,10 @@ def all_rows():
         for r in UN:
             rows.append(('un', r, [(w, 'bool' if w == 'bhint' else 'int')]))
     lhs = [(w, t) for w in ('tainted', 'tvol', 'plain') for t in ('int', 'bool', 'uchar', 'long', 'enum', 'double', 'ip', 'vp', 'fn', 'arr', 'st', 'short', 'ullong', 'float')] + [('bhint', 'bool'), ('ihint', 'int')]
+    # the null pointer constant on the LEFT (`nullptr == x`), and opaque wrappers as left operands (they define no operators at all)
+    lhs += [('plain', 'null'), ('opaque', 'int'), ('opaque', 'ip')]
     rhs = [('plain', 'int'), ('plain', 'double'), ('plain', 'ip'), ('plain', 'null'), ('plain', 'enum'), ('plain', 'bool'), ('plain', 'long'), ('tainted', 'int'), ('tainted', 'bool'),
-           ('tainted', 'double'), ('tainted', 'ip'), ('tainted', 'ullong'), ('tvol', 'int'), ('tvol', 'ip'), ('tvol', 'short'), ('bhint', 'bool'), ('opaque', 'int')]
+           ('tainted', 'double'), ('tainted', 'ip'), ('tainted', 'ullong'), ('tvol', 'int'), ('tvol', 'ip'), ('tvol', 'short'), ('bhint', 'bool'), ('opaque', 'int'), ('opaque', 'ip')]
     for l in lhs:
         for o in BINOPS:
             for r in rhs:
